@@ -1020,7 +1020,14 @@ def run(ctx):
         "(translator) = the recomputing semantics `trace` of Qib.Embed.ObsModel for the view D(value of the gate object)(fields); "
         "the harness mutates ONE live object (public mutators, attribute assignment, in-place list writes, on the object and on "
         "objects reached through target_gate()/target_gates()) and compares every query with a gate built afresh from the value")
-    ctx.assumes.append("field objects are compared by identity (Field defines no __eq__): field ids in the model are distinct integers")
+    ctx.assumes.append("field objects are compared by identity: the translator requires class Field (field.py) to be a plain class "
+                       "without __eq__/__hash__ or any other special method besides __init__, Particle.__eq__ to compare field and "
+                       "index, Qubit not to override it; the model's field ids are distinct integers per Field OBJECT (also for "
+                       "several fields on one lattice object); a field listed twice is found at its first occurrence and every "
+                       "listed copy contributes its wires (the code as it is; mp2w_found needs distinctness of the EARLIER fields only)")
+    ctx.assumes.append("numpy: np.reshape with the default order reads the logical (row-major) index order whatever the memory "
+                       "layout / dtype of the argument (translator: the reshape calls carry no order argument); validated by running "
+                       "every permutation on 15 layouts/dtypes of the same matrix")
     ctx.rules.append("dense non-symmetric Gaussian-integer G x ALL ordered selections of m<=3 distinct wires out of nw<=6 "
                      "(thorough: all m<=nw<=6) + random nw<=9; invalid wire lists; real gate objects over 1-3 fields in every "
                      "field order incl. unlisted fields; permute_gate_wires for all permutations n<=3 (thorough 4) + random. "
@@ -1030,9 +1037,24 @@ def run(ctx):
                      "assignment/in-place list write/parameters/ctrl_state/mat/tgate/tgates[k]) to each reachable object of 19 base "
                      "gates, query again with the same and with another field list; random histories of 4-10 steps; the matrices "
                      "handed out earlier must keep their entries and the caller overwriting them must not affect later queries. "
+                     "DIMENSIONS OF AN INPUT every generator varies: (a) memory layout and dtype of every matrix handed to the API - "
+                     "C / Fortran / transposed and adjoint views / strided, offset and negatively strided windows / read-only / "
+                     "complex64 / real / int64 / int8 / nested lists - for permute_gate_wires (all layouts x all permutations n<=3, "
+                     "5 layouts each for n = 4, 5, 3 for n = 6..9; perm as list / tuple / int64 and int32 arrays / np.argsort output; the "
+                     "argument must stay unchanged), for the matrix of every GeneralGate (phase-permutation AND dense matrices without "
+                     "zero entries; also as the new value of .mat in histories) and for the dense matrix behind the CSR structure handed "
+                     "to _distribute_to_wires; scalar / vector parameters as Python floats, ints, numpy float64 / float32, tuples; "
+                     "(b) relations between the OBJECTS of an input (mode `fmode` of the descriptor): several distinct fields on ONE "
+                     "lattice object (every partition of the equal-sized fields), equal lattices in distinct objects, lattice "
+                     "flavours (open / periodic / 2-d / fully connected / layered), a field listed twice in the field list (every "
+                     "position), one Qubit object per site shared by everything vs. a fresh object per mention, controls and targets at "
+                     "the SAME site of two registers, dense gates across registers; all of it also inside the histories; "
+                     "(c) sizes: _distribute_to_wires and real gates on registers of 9..12 wires (entry lists compared with a numpy-only "
+                     "sparse reference), permute_gate_wires up to 9 (thorough 10) wires. The reference for a gate is always built from "
+                     "a plain C-ordered matrix, whatever layout the gate under test was given. "
                      "non-trivial = wires not an ascending adjacent block starting at 0, or >=2 fields listed, or a non-identity "
                      "permutation, or a wire list the code must reject (repeated / out of range); CSR-conversion cases never count")
-    ctx.lib(["Embed/EmbedCheck", "Embed/WireProofs", "Embed/CsrProofs", "Embed/HeapObs"])
+    ctx.lib(["Embed/EmbedCheck", "Embed/WireProofs", "Embed/CsrProofs", "Embed/HeapObs", "Embed/IdentProofs"])
     ok = ctx.translate("GenEmbed", gen_embed.generate)
     if ok:
         ctx.props()
